@@ -1,7 +1,10 @@
 (* C07 — reused and pooled parsers and writers behave like fresh ones. *)
-From Coq Require Import String List Bool.
+From Coq Require Import Init.Byte String List Bool ZArith.
 Require Import Ojg.Gen.Fields Ojg.Reuse.Discipline Ojg.Reuse.Fields.
+Require Import Ojg.Base.Bytes Ojg.Base.Jv Ojg.Gen.OjMaps Ojg.Json.Number Ojg.Json.Machine Ojg.Json.Frontends.
+Require Import Ojg.Json.Scratch Ojg.Json.ScratchThm Ojg.Json.ScratchSweeps.
 Import ListNotations.
+Open Scope nat_scope.
 Open Scope string_scope.
 
 (* for any instance type under the reset / configuration / scratch discipline, any history of
@@ -50,6 +53,42 @@ Example C07_example_discipline :
   forall s1 s2 a, agree_on bool nat cl not_scratch s1 s2 -> snd (run s1 a) = snd (run s2 a).
 Proof. intros cl run s1 s2 a H. cbn. rewrite (H true eq_refl). reflexivity. Qed.
 
+(* The first hypothesis of the two theorems above, discharged for the byte loops of the JSON
+   front-ends (the machine of Json/Machine.v, eight configurations): whatever earlier calls left
+   in the scratch fields - nextMode, ri, the string buffer, the number under construction, the
+   rune under construction - a run over any input in any chunking gives the outcome of a run
+   from the fresh state. (No action reads a scratch field in a mode where it is dead: a sweep
+   over the regenerated tables; one step then commutes with overwriting the dead fields.) *)
+Definition C07_machine (K : cfg) : Prop :=
+  forall (nx : mode) (ri : Z) (tmp : bytes) (nm : num) (rn : Z) (cs : list bytes),
+  run_from K (dirty_init nx ri tmp nm rn) cs = run_all_chunks K cs.
+
+Theorem C07_machine_parser : C07_machine fe_parser.
+Proof. exact (stale_scratch_irrelevant fe_parser ssweep_parser). Qed.
+Theorem C07_machine_validator : C07_machine fe_validator.
+Proof. exact (stale_scratch_irrelevant fe_validator ssweep_validator). Qed.
+Theorem C07_machine_tokenizer : C07_machine fe_tokenizer.
+Proof. exact (stale_scratch_irrelevant fe_tokenizer ssweep_tokenizer). Qed.
+Theorem C07_machine_gen : C07_machine fe_gen.
+Proof. exact (stale_scratch_irrelevant fe_gen ssweep_gen). Qed.
+Theorem C07_machine_parser_multi : C07_machine fe_parser_multi.
+Proof. exact (stale_scratch_irrelevant fe_parser_multi ssweep_parser_multi). Qed.
+Theorem C07_machine_validator_multi : C07_machine fe_validator_multi.
+Proof. exact (stale_scratch_irrelevant fe_validator_multi ssweep_validator_multi). Qed.
+Theorem C07_machine_tokenizer_multi : C07_machine fe_tokenizer_multi.
+Proof. exact (stale_scratch_irrelevant fe_tokenizer_multi ssweep_tokenizer_multi). Qed.
+Theorem C07_machine_gen_multi : C07_machine fe_gen_multi.
+Proof. exact (stale_scratch_irrelevant fe_gen_multi ssweep_gen_multi). Qed.
+
+(* non-vacuity: a dirty state does differ from the fresh one, and the run does produce a value *)
+Example C07_machine_example :
+  run_from fe_parser (dirty_init M_colonMap 3 [x61] (set_I num_reset 77) 9)
+           [map (fun n => n2b n) [91; 49; 50; 44; 34; 120; 34; 93]%N]
+  = OOk [JArr [JInt 12; JStr [x78]]] [].
+Proof. vm_compute. reflexivity. Qed.
+
 Print Assumptions C07_reuse_eq_fresh.
 Print Assumptions C07_history_eq_fresh.
 Print Assumptions C07_fields_covered.
+Print Assumptions C07_machine_parser.
+Print Assumptions C07_machine_gen_multi.
